@@ -242,11 +242,22 @@ def _run_hx_once(cases, timeout):
     return rc, err, parse_results(text)
 
 
-def run_hx(cases, timeout=1800):
+MAX_DEATHS = 3      # per batch: after that many isolated culprits the remaining cases are not run any more
+
+
+def run_hx(cases, timeout=1800, _deaths=None):
     """runs the cases on the real code. If the harness process dies (abort, stack overflow, out of
     memory, timeout) the culprit case is found by bisection and gets the result `P process-died`;
-    the other cases are still run."""
+    the other cases are still run - until MAX_DEATHS culprits have been isolated in this batch, then the
+    rest is reported as `X not-run` (a tree on which the interpreter keeps dying is not explored case by case)."""
+    top = _deaths is None
+    if top:
+        _deaths = [0]
+    if _deaths[0] >= MAX_DEATHS:
+        return {c[0]: ["X not-run the harness process had already died %d times in this batch" % _deaths[0]] for c in cases}
     rc, err, res = _run_hx_once(cases, timeout)
+    if rc != 0 and len(cases) == 1:
+        _deaths[0] += 1
     if rc == 0:
         return res
     if len(cases) == 1:
@@ -259,11 +270,11 @@ def run_hx(cases, timeout=1800):
     if not rest:
         return res
     if len(rest) == 1:
-        res.update(run_hx(rest, timeout))
+        res.update(run_hx(rest, timeout, _deaths))
         return res
     # the first unfinished case is the likely culprit
-    res.update(run_hx(rest[:1], min(timeout, 120)))
-    res.update(run_hx(rest[1:], timeout))
+    res.update(run_hx(rest[:1], min(timeout, 120), _deaths))
+    res.update(run_hx(rest[1:], timeout, _deaths))
     return res
 
 
